@@ -11,7 +11,7 @@ CONSTANTS
   SizeDomain <- MC_NearBoundary
   FinalCompare = TRUE
   Clamp = "zero"
-  SizeBits = 16
+  SizeBits = 32
   Boundary <- MC_Boundary
 CHECK_DEADLOCK FALSE
 INVARIANT TypeOK
@@ -19,3 +19,4 @@ INVARIANT Inv_BoundaryExact
 INVARIANT Inv_SectionLayout
 INVARIANT Inv_EntryIndexFits
 INVARIANT Inv_Monotone
+INVARIANT Inv_Wide32
